@@ -1,5 +1,6 @@
 """C03 - sustains, end tick, end time and last-note-end are faithful to the lines."""
 from vf.runner import Ob
+from .common import _sync_section, _two_maps, _e2e  # noqa: F401
 from .common import *  # noqa: F401,F403
 from .common import _ned
 
@@ -41,6 +42,8 @@ def obligations(tier):
                          "each chart dropped at once (freed objects, recycled addresses): every parse identical to the first parse of its text"))
     obs.append(Ob("C03.framing", "CH", "harness.h_chart", "framing", 300, funcs=("chartparse.chart.Chart._partition_lines_by_data_section",),
                   bounds="3 sections x <=2 symbolic body lines of any length (blank lines included): this section's parser receives exactly its own body lines"))
+    obs.append(Ob("C03.decode.N.sustain", "CH", "harness.h_lines", "decode_line", 900, {"VF_KIND": 0, "VF_SYM": 1, "VF_MAXD": 3 if tier == "quick" else 5},
+                  funcs=("chartparse.instrument.NoteEvent.ParsedData.from_chart_line",), bounds="the written length as a symbolic ASCII digit string (leading zeros included): decoded to its integer value"))
     return obs
 
 
